@@ -570,6 +570,202 @@ class Body:
                 out.append((s, vals, self.origin(t['on'])))
         return out
 
+    # ---- path-sensitive reachability (variant knowledge of locals that feed switches)
+    def _ps_relevant(self):
+        if getattr(self, '_psrel', None) is not None:
+            return self._psrel
+        rel = set()
+        work = []
+        for bb, blk in enumerate(self.blocks):
+            t = blk['term']
+            if t['k'] == 'switch':
+                on = t['on']
+                pl = on.get('cp') or on.get('mv')
+                if pl and not pl.get('pr'):
+                    work.append(pl['l'])
+        defs = self.defs()
+        while work:
+            l = work.pop()
+            if l in rel:
+                continue
+            rel.add(l)
+            for d in defs.get(l, []):
+                if d[0] == 'stmt':
+                    rv = d[3]
+                    src = None
+                    if 'use' in rv:
+                        src = rv['use'].get('cp') or rv['use'].get('mv')
+                    elif 'discr' in rv:
+                        src = rv['discr']
+                    if src and 'agg' not in rv:
+                        work.append(src['l'])
+                    if 'agg' in rv and rv.get('ops'):
+                        o0 = rv['ops'][0]
+                        s0 = o0.get('cp') or o0.get('mv')
+                        if s0 and not s0.get('pr'):
+                            work.append(s0['l'])
+                elif d[0] == 'call' and d[2].get('name') == 'branch' and d[2]['args']:
+                    a = d[2]['args'][0]
+                    src = a.get('cp') or a.get('mv')
+                    if src and not src.get('pr'):
+                        work.append(src['l'])
+        self._psrel = rel
+        return rel
+
+    _BRANCH_MAP = {'Ok': 'Continue', 'Some': 'Continue', 'Err': 'Break', 'None': 'Break', 'Ready': None}
+
+    def _ps_step(self, bb, know):
+        """abstractly execute block bb on knowledge dict {local: ('v', variant) | ('d', int)}; returns (know', [succs])"""
+        rel = self._ps_relevant()
+        know = dict(know)
+        blk = self.blocks[bb]
+        for st in blk['stmts']:
+            if 'setdiscr' in st:
+                pl = st['setdiscr']
+                if not pl.get('pr') and pl['l'] in rel:
+                    know[pl['l']] = ('v', st['variant'], None)
+                continue
+            if 'p' not in st:
+                continue
+            pl, rv = st['p'], st['rv']
+            if 'ref' in rv and rv.get('mut') and not rv['ref'].get('pr'):
+                know.pop(rv['ref']['l'], None)
+            if pl.get('pr'):
+                continue
+            l = pl['l']
+            if l not in rel:
+                continue
+            new = None
+            if 'agg' in rv and rv['agg'].get('kind') == 'adt' and rv['agg'].get('variant'):
+                pk = None
+                if len(rv.get('ops', [])) == 1:
+                    o0 = rv['ops'][0]
+                    s0 = o0.get('cp') or o0.get('mv')
+                    if s0 is not None and not s0.get('pr'):
+                        pk = know.get(s0['l'])
+                new = ('v', rv['agg']['variant'], pk)
+            elif 'use' in rv:
+                op = rv['use']
+                src = op.get('cp') or op.get('mv')
+                if src is not None and not src.get('pr'):
+                    new = know.get(src['l'])
+                elif src is not None and len(src['pr']) == 2 and isinstance(src['pr'][0], dict) and 'v' in src['pr'][0] and isinstance(src['pr'][1], dict) and src['pr'][1].get('f') == 0:
+                    # payload of a known variant: (x as V).0
+                    kk = know.get(src['l'])
+                    if kk and kk[0] == 'v' and kk[1] == src['pr'][0]['v'] and len(kk) > 2:
+                        new = kk[2]
+                elif 'k' in op:
+                    v = op['k'].get('v')
+                    if isinstance(v, bool):
+                        new = ('d', int(v))
+                    elif isinstance(v, int):
+                        new = ('d', v)
+            elif 'discr' in rv:
+                src = rv['discr']
+                if not src.get('pr'):
+                    k = know.get(src['l'])
+                    if k and k[0] == 'v':
+                        for val, name in rv.get('variants', []):
+                            if name == k[1]:
+                                new = ('d', val)
+            if new is None:
+                know.pop(l, None)
+            else:
+                know[l] = new
+        t = blk['term']
+        k = t['k']
+        if k == 'call':
+            d = t['dest']
+            if not d.get('pr'):
+                new = None
+                if t.get('name') == 'branch' and t['args'] and d['l'] in rel:
+                    a = t['args'][0]
+                    src = a.get('cp') or a.get('mv')
+                    if src is not None and not src.get('pr'):
+                        kk = know.get(src['l'])
+                        if kk and kk[0] == 'v' and self._BRANCH_MAP.get(kk[1]):
+                            bm = self._BRANCH_MAP[kk[1]]
+                            new = ('v', bm, kk[2] if bm == 'Continue' and len(kk) > 2 else None)
+                if new is None:
+                    know.pop(d['l'], None)
+                else:
+                    know[d['l']] = new
+            return know, self.succs(bb)
+        if k == 'switch':
+            on = t['on']
+            pl = on.get('cp') or on.get('mv')
+            val = None
+            if pl is not None and not pl.get('pr'):
+                kk = know.get(pl['l'])
+                if kk and kk[0] == 'd':
+                    val = kk[1]
+            elif 'k' in on and isinstance(on['k'].get('v'), (int, bool)):
+                val = int(on['k']['v'])
+            if val is not None:
+                for v, tb in t['arms']:
+                    if v == val:
+                        return know, [tb]
+                return know, [t['else']]
+            if self.else_infeasible(bb):
+                out = []
+                for v, tb in t['arms']:
+                    if tb not in out:
+                        out.append(tb)
+                return know, out
+        return know, self.succs(bb)
+
+    def else_infeasible(self, bb):
+        """True iff block bb switches on the discriminant of an enum whose every variant has its own arm (the otherwise edge
+        exists only because match lowering shares it with other arms)"""
+        c = getattr(self, '_elsec', None)
+        if c is None:
+            c = self._elsec = {}
+        if bb in c:
+            return c[bb]
+        t = self.blocks[bb]['term']
+        res = False
+        if t['k'] == 'switch':
+            on = t['on']
+            pl = on.get('cp') or on.get('mv')
+            if pl is not None and not pl.get('pr'):
+                ds = self.defs().get(pl['l'], [])
+                if len(ds) == 1 and ds[0][0] == 'stmt' and 'discr' in ds[0][3] and ds[0][3].get('variants'):
+                    allv = {v for v, n in ds[0][3]['variants']}
+                    res = allv <= {v for v, _ in t['arms']}
+        c[bb] = res
+        return res
+
+    def reach_ps(self, start, removed=(), removed_edges=(), cap=60000):
+        """blocks reachable from `start` (a block or list of blocks, entered with no knowledge) when branches on the
+        discriminant of a value whose variant is known on the path (built as Ok/Err/Some/None.. on that path, possibly passed
+        through `?`) are followed only along the matching arm.  Sound over-approximation of the feasible paths; falls back
+        to plain reachability beyond `cap` explored states."""
+        removed = set(removed)
+        removed_edges = set(removed_edges)
+        starts = [start] if isinstance(start, int) else list(start)
+        seen = set()
+        out = set()
+        dq = deque()
+        for s0 in starts:
+            if s0 not in removed:
+                dq.append((s0, frozenset()))
+                seen.add((s0, frozenset()))
+        while dq:
+            bb, ks = dq.popleft()
+            out.add(bb)
+            know, succs = self._ps_step(bb, dict(ks))
+            fk = frozenset(know.items())
+            for s in succs:
+                if s in removed or (bb, s) in removed_edges:
+                    continue
+                if (s, fk) in seen:
+                    continue
+                seen.add((s, fk))
+                if len(seen) > cap:
+                    return self.reachable(starts, removed=removed, removed_edges=removed_edges)
+                dq.append((s, fk))
+        return out
+
     def switch_edges(self, s):
         """{target: [values]} of switch block s ('else' for otherwise)"""
         t = self.term(s)
@@ -921,13 +1117,13 @@ def decision_rows(body, start, effects, relevant=None, limit=50000, stop=None):
     stop = set(stop or ())
     rows = []
     seen = set()
-    stack = [(start, ())]
+    stack = [(start, (), frozenset())]
     n = 0
     while stack:
-        bb, cons = stack.pop()
-        if (bb, cons) in seen:
+        bb, cons, ks = stack.pop()
+        if (bb, cons, ks) in seen:
             continue
-        seen.add((bb, cons))
+        seen.add((bb, cons, ks))
         n += 1
         if n > limit:
             raise CheckError('UNRECOGNISED: decision walk exceeded %d states in %s' % (limit, body.path))
@@ -937,14 +1133,20 @@ def decision_rows(body, start, effects, relevant=None, limit=50000, stop=None):
         if bb in stop:
             continue
         t = body.term(bb)
+        know, feas = body._ps_step(bb, dict(ks))
+        fk = frozenset(know.items())
         if t['k'] == 'switch':
-            subj, mode, cv = classify_test(body.origin(t['on']))
+            subj, mode, cv = classify_test(simplify(body.origin(t['on'])))
             rel = relevant(subj) if relevant else True
             edges = body.switch_edges(bb)
             armvals = tuple(sorted(v for v, _ in t['arms']))
             for tgt, vals in edges.items():
+                if tgt not in feas:
+                    continue  # the value switched on is known on this path (built as that variant earlier on it)
+                if vals == ['else'] and body.else_infeasible(bb):
+                    continue
                 if not rel:
-                    stack.append((tgt, cons))
+                    stack.append((tgt, cons, fk))
                     continue
                 if mode == 'direct':
                     if vals == ['else']:
@@ -974,10 +1176,10 @@ def decision_rows(body, start, effects, relevant=None, limit=50000, stop=None):
                 newc = cons if c is None else add_constraint(cons, c)
                 if newc is False:
                     continue  # contradictory: infeasible by constant comparison
-                stack.append((tgt, newc))
+                stack.append((tgt, newc, fk))
         else:
-            for s in body.succs(bb):
-                stack.append((s, cons))
+            for s in feas:
+                stack.append((s, cons, fk))
     return rows
 
 
@@ -1341,6 +1543,111 @@ def _find(t, pred, out=None):
                     if isinstance(y, tuple):
                         _find(y, pred, out)
     return out
+
+
+NEVER = ('never',)
+
+
+def simplify(t, depth=0):
+    """project through known constructors: (V{x} as V).0 -> x, (W{..} as V).0 -> infeasible (dropped from a phi),
+    branch(Ok{x}|Some{x}) as Continue.0 -> x, tuple{a, b}.1 -> b, Struct{f: a}.f -> a.  Terms it does not understand are kept."""
+    if depth > 60 or not isinstance(t, tuple) or not t:
+        return t
+    k = t[0]
+    if k in ('ref', 'deref'):
+        inner = simplify(t[1], depth + 1)
+        return inner if inner is NEVER else (k, inner) + tuple(t[2:])
+    if k == 'phi':
+        alts = []
+        for a in t[1]:
+            sa = simplify(a, depth + 1)
+            if sa is NEVER:
+                continue
+            if sa and sa[0] == 'phi':
+                alts.extend(sa[1])
+            else:
+                alts.append(sa)
+        uniq = []
+        for a in alts:
+            if a not in uniq:
+                uniq.append(a)
+        if not uniq:
+            return NEVER
+        if len(uniq) == 1:
+            return uniq[0]
+        return ('phi', uniq) + tuple(t[2:])
+    if k == 'field':
+        base = t[1]
+        if isinstance(base, tuple) and base and base[0] == 'variant':
+            want = base[2]
+            inner = strip_refs(simplify(base[1], depth + 1))
+            r = _project_variant(inner, want, t[2], depth)
+            if r is not None:
+                return r
+            return ('field', ('variant', inner, want), t[2])
+        inner = strip_refs(simplify(base, depth + 1))
+        if inner is NEVER:
+            return NEVER
+        r = _project_field(inner, t[2], depth)
+        if r is not None:
+            return r
+        return ('field', inner, t[2])
+    if k == 'cast' and len(t) > 2:
+        inner = simplify(t[2], depth + 1)
+        return NEVER if inner is NEVER else (t[0], t[1], inner) + tuple(t[3:])
+    if k == 'discr':
+        inner = simplify(t[1], depth + 1)
+        return NEVER if inner is NEVER else ('discr', inner) + tuple(t[2:])
+    if k == 'bin':
+        a, b = simplify(t[2], depth + 1), simplify(t[3], depth + 1)
+        return NEVER if (a is NEVER or b is NEVER) else ('bin', t[1], a, b) + tuple(t[4:])
+    if k == 'un':
+        a = simplify(t[2], depth + 1)
+        return NEVER if a is NEVER else ('un', t[1], a) + tuple(t[3:])
+    return t
+
+
+def _project_field(inner, name, depth):
+    if inner and inner[0] == 'phi':
+        return simplify(('phi', [('field', a, name) for a in inner[1]]), depth + 1)
+    if inner and inner[0] == 'agg':
+        meta, ops = inner[1], inner[2]
+        if meta.get('kind') == 'tuple' and str(name).isdigit() and int(name) < len(ops):
+            return simplify(ops[int(name)], depth + 1)
+        if meta.get('kind') == 'adt' and not meta.get('variant_is_enum') and name in (meta.get('fields') or []):
+            return simplify(ops[meta['fields'].index(name)], depth + 1)
+    return None
+
+
+def _project_variant(inner, want, fld, depth):
+    """payload field `fld` of `inner` seen as variant `want`"""
+    if inner is NEVER:
+        return NEVER
+    if inner and inner[0] == 'phi':
+        return simplify(('phi', [('field', ('variant', a, want), fld) for a in inner[1]]), depth + 1)
+    if inner and inner[0] == 'agg' and inner[1].get('variant'):
+        if inner[1]['variant'] != want:
+            return NEVER
+        flds = inner[1].get('fields') or []
+        idx = flds.index(str(fld)) if str(fld) in flds else (int(fld) if str(fld).isdigit() else None)
+        if idx is not None and idx < len(inner[2]):
+            return simplify(inner[2][idx], depth + 1)
+        return None
+    if is_call(inner, name='branch') and want in ('Continue', 'Break'):
+        x = strip_refs(simplify(inner[2][0], depth + 1))
+        if want == 'Continue':
+            outs = []
+            alts = x[1] if x and x[0] == 'phi' else [x]
+            for a in alts:
+                a = strip_refs(a)
+                if a and a[0] == 'agg' and a[1].get('variant') in ('Ok', 'Some'):
+                    outs.append(simplify(a[2][0], depth + 1) if a[2] else a)
+                elif a and a[0] == 'agg' and a[1].get('variant') in ('Err', 'None'):
+                    continue
+                else:
+                    outs.append(('field', ('variant', ('call',) + tuple(inner[1:2]) + ([a],) + tuple(inner[3:]), want), fld))
+            return simplify(('phi', outs), depth + 1) if outs else NEVER
+    return None
 
 
 def norm_cmp(o):
